@@ -78,9 +78,18 @@ def lake_build(modules, timeout=1500):
     return rc == 0, log
 
 
+def prop_modules(prop_id):
+    """Props/<id>.lean and its continuation files Props/<id><Suffix>.lean (same namespace PwVerif.<id>)"""
+    d = LEAN / 'PwVerif' / 'Props'
+    return [f'PwVerif.Props.{p.stem}' for p in sorted(d.glob(f'{prop_id}*.lean')) if re.fullmatch(prop_id + r'[A-Za-z]*', p.stem)]
+
+
 def theorem_names(prop_id):
-    src = (LEAN / 'PwVerif' / 'Props' / f'{prop_id}.lean').read_text()
-    return [f'PwVerif.{prop_id}.{m}' for m in re.findall(r'^theorem\s+([A-Za-z0-9_\.\']+)', src, re.M)]
+    out = []
+    for mod in prop_modules(prop_id):
+        src = (LEAN / (mod.replace('.', '/') + '.lean')).read_text()
+        out += [f'PwVerif.{prop_id}.{m}' for m in re.findall(r'^theorem\s+([A-Za-z0-9_\.\']+)', src, re.M)]
+    return out
 
 
 def strip_comments(src):
@@ -123,7 +132,7 @@ def audit(prop_id, timeout=600):
     d = LEAN / '.lake' / 'audit'
     d.mkdir(parents=True, exist_ok=True)
     f = d / f'{prop_id}.lean'
-    f.write_text(f'import PwVerif.Props.{prop_id}\n' + ''.join(f'#print axioms {n}\n' for n in names))
+    f.write_text(''.join(f'import {m}\n' for m in prop_modules(prop_id)) + ''.join(f'#print axioms {n}\n' for n in names))
     with _lock():
         rc, out = _run(['lake', 'env', 'lean', str(f)], timeout)
     res = {n: None for n in names}
@@ -220,7 +229,7 @@ class Ctx:
     # ---- Lean side
     def lean(self, extra_modules=()):
         """Build the property's theorem file, audit axioms, scan sources."""
-        mods = [f'PwVerif.Props.{self.id}'] + list(extra_modules)
+        mods = prop_modules(self.id) + list(extra_modules)
         ok, log = lake_build(mods)
         names = theorem_names(self.id)
         self.cov['obligations'] = len(names)
@@ -230,7 +239,7 @@ class Ctx:
         if not ok:
             self.cov['discharged'] = 0
             errs = '\n'.join(l for l in log.splitlines() if 'error' in l.lower())[:3000]
-            self.broke('proof', f'PwVerif.Props.{self.id}', errs + '\n----\n' + log[-6000:])
+            self.broke('proof', ' / '.join(prop_modules(self.id)), errs + '\n----\n' + log[-6000:])
             return False
         ax, out = audit(self.id)
         good = 0
@@ -354,3 +363,15 @@ def watchdog(fn, timeout, *args, **kwargs):
         t.join(2)
         return ('hang', None)
     return box.get('r', ('hang', None))
+
+
+def spawn_server(addr=('127.0.0.1', 0), timeout=40):
+    """pyworkers.remote_server.spawn_server under a watchdog: the constructor of the server process blocks
+    without a bound while the child starts, so a start-up hiccup of the machine must not hang the check."""
+    repo_on_path()
+    from pyworkers.remote_server import spawn_server as real
+    for attempt in (1, 2):
+        st, srv = watchdog(lambda: real(addr), timeout)
+        if st == 'ok':
+            return srv
+    raise Infra(f'cannot start a remote server process: {st} {srv!r}')
